@@ -133,16 +133,19 @@ Definition digits1 (l : bytes) : option bytes :=           (* one or more digits
 (* the JSON number grammar: optional minus, 0 or a digit 1-9 followed by digits, optional fraction
    (dot and one or more digits), optional exponent (e or E, optional sign, one or more digits) *)
 Definition json_number_ok (raw : bytes) : bool :=
-  let l := match raw with 45%N :: r => r | _ => raw end in
+  let l := match raw with c :: r => if beq c 45%N then r else raw | [] => raw end in
   let after_int := match l with
-                   | 48%N :: r => Some r
-                   | c :: r => if is_digit19 c then Some (skip_digits r) else None
+                   | c :: r => if beq c 48%N then Some r
+                               else if is_digit19 c then Some (skip_digits r) else None
                    | [] => None
                    end in
   match after_int with
   | None => false
   | Some l1 =>
-      let after_frac := match l1 with 46%N :: r => digits1 r | _ => Some l1 end in
+      let after_frac := match l1 with
+                        | c :: r => if beq c 46%N then digits1 r else Some l1
+                        | [] => Some l1
+                        end in
       match after_frac with
       | None => false
       | Some l2 =>
